@@ -39,10 +39,12 @@ def str2bool(string):
     """
     Convert a string to a boolean.
 
-    :param string: the string to convert
+    :param string: the string to convert (a setting given in code can be a bool already, or a number)
     :return: True, if string is yes, true, t or 1. (case-insensitive)
     """
-    return string.lower() in ("yes", "true", "t", "1", "y")
+    if isinstance(string, bool):
+        return string
+    return str(string).lower() in ("yes", "true", "t", "1", "y")
 
 
 class RepeatedTimer:
